@@ -48,7 +48,7 @@ def run_case(c):
         R.append(call("poly", {"x": c["x"], "y": c["y"]},
                       lambda: {"x": chords.from_shorthand(x), "y": chords.from_shorthand(y), "xy": chords.from_shorthand(x + "|" + y),
                                "xyx": chords.from_shorthand(x + "|" + y + "|" + x)},
-                      lambda o: {"x": names(o["x"]), "y": names(o["y"]), "xy": names(o["xy"]), "xyx": names(o["xyx"])}, timeout=5))
+                      lambda o: {"x": names(o["x"]), "y": names(o["y"]), "xy": names(o["xy"]), "xyx": names(o["xyx"])}, timeout=2))
     elif k == "malformed":
         s = txt(c["root"]) + c["suffix"]
         R.append(call("malformed", {"s": list(s)}, lambda: chords.from_shorthand(s), names))
